@@ -261,7 +261,7 @@ _AKEYS = [ice.fake_key(k, kid=None) for k in AKEYS]
 
 def asym_sig(alg, sig_i):
     """decoded signature octets offered: 0 well-formed length, 1 one octet short, 2 two octets longer, 3 empty, 4 one longer"""
-    L = 2 * ES_CURVE[alg][1] if alg in ES_CURVE else 64
+    L = 2 * ES_CURVE[alg][1] if alg in ES_CURVE else (256 if alg[:2] in ("RS", "PS") else 64)      # the fake RSA keys are 2048 bit
     n = [L, L - 1, L + 2, 0, L + 1][sig_i]
     return bytes((7 * i + 3) % 251 for i in range(n))
 
@@ -303,7 +303,8 @@ def compact_asym(alg_i: int, key_i: int, sig_i: int, vr: bool) -> bool:
     v = vs[0]
     kind = AKEYS[key_i]
     if kty == "RSA":
-        ok = kind == "RSA" and v["family"] == "RSA" and v["params"] == params and v["sig"] == sig
+        # RFC 8017 8.1.2 / 8.2.2 step 1: a signature that is not exactly as long as the modulus is invalid (truncation clause)
+        ok = kind == "RSA" and v["family"] == "RSA" and v["params"] == params and v["sig"] == sig and len(sig) == 256
     elif kty == "EC":
         crv, L = ES_CURVE[alg]
         from cryptography.hazmat.primitives.asymmetric.utils import encode_dss_signature
@@ -680,14 +681,30 @@ def replay_asym(alg_i, key_i, sig_i, vr):
         half = len(sig) // 2
     if not vr:
         sig = bytes([sig[0] ^ 1]) + sig[1:]
-    sig = [sig, sig[:-1], b"\x00" + sig[:half] + b"\x00" + sig[half:], b"", sig + b"\x00"][sig_i]
-    token = si + b"." + R.b64e(sig).encode()
-    try:
-        obj = jws.deserialize_compact(token, JWKRegistry.import_key(R.public_jwk(jwk)), [alg])
-    except Exception as e:  # noqa
-        return {"violated": False, "detail": "real code rejected: %s" % type(e).__name__}
-    ok, h2, p2 = R.compact_verify(token, R.public_jwk(jwk))
-    return _judge("asym", True, obj.payload, ok, p2, "alg=%s key=%s token=%r" % (alg, kind, token))
+    cands = [[sig, sig[:-1], b"\x00" + sig[:half] + b"\x00" + sig[half:], b"", sig + b"\x00"][sig_i]]
+    if sig_i in (1, 3) and kind == "RSA" and own is not None and vr:
+        # the model says: a signature SHORTER than the modulus reached the primitive and was judged valid.  The concrete way to get
+        # that verdict from pyca: a valid signature whose first octet is zero, with that octet removed (same integer)
+        for _ in range(4000):
+            s2 = R.jws_sign(own, jwk, si)
+            if s2[0] == 0:
+                cands.append(s2[1:])
+                break
+            if own[:2] == "RS":
+                break                    # deterministic padding: re-signing gives the same octets
+    last = None
+    for sg in cands:
+        token = si + b"." + R.b64e(sg).encode()
+        try:
+            obj = jws.deserialize_compact(token, JWKRegistry.import_key(R.public_jwk(jwk)), [alg])
+        except Exception as e:  # noqa
+            last = {"violated": False, "detail": "real code rejected: %s" % type(e).__name__}
+            continue
+        ok, h2, p2 = R.compact_verify(token, R.public_jwk(jwk))
+        last = _judge("asym", True, obj.payload, ok, p2, "alg=%s key=%s signature of %d octets token=%r" % (alg, kind, len(sg), token[:80]))
+        if last["violated"]:
+            return last
+    return last
 
 
 ES_CURVE_BY_CRV = {"P-256", "P-384", "P-521", "secp256k1"}
@@ -700,6 +717,8 @@ def replay(func, call):
     args = eval("(" + call + ",)")
     if func == "twostep_compact":
         return replay_twostep(args[0], args[1])
+    if func in ("compact_asym", "compact_asym_witness"):
+        return replay_asym(*args)
     if func.startswith("compact_"):
         keyform, allow_i, p_empty, s_empty, hdr_bad = 0, 0, False, False, 0
         if func == "compact_header_members":
